@@ -12,7 +12,7 @@ use crate::proto::{Ctx, attrs};
 pub fn meta() -> Meta {
     Meta {
         level: "model_checking",
-        rule: "every history of depth d (quick 4, thorough 5) over 13 actions (5 kind-specific operations incl. different operators on the same operand registers, clone, drops, gc, add_vars, reverse/rotate reordering) for bdd, bcdd, zbdd, mtbdd, tdd (and MTBDD alphabets whose results are bare terminals, on terminal tables of 4..6 entries so that terminal ids are recycled within a history; thorough: also F64 terminals) is executed in lock-step on five managers that differ only in the apply cache: capacities 1, 2, 16, 4096 and a capacity-16 manager warmed up by 50 unrelated operations; after every step every register of every manager must denote the model's table and have the model's minimal node count (hence all managers agree), and every operation is re-issued once with the same operands and must return the same handle. Capacity 1 puts all entries in one bucket, so a key comparison that ignores the operator or an operand is hit by the second operation. states = distinct model states, transitions = checked steps, executions = histories (each on 5 managers).",
+        rule: "every history of depth d (quick 4, thorough 5) over 13 actions (5 kind-specific operations incl. different operators on the same operand registers, clone, drops, gc, add_vars, reverse/rotate reordering) for bdd, bcdd, zbdd, mtbdd, tdd (and MTBDD alphabets whose results are bare terminals, on terminal tables of 4..6 entries so that terminal ids are recycled within a history; thorough: also F64 terminals; bdd/zbdd (thorough: bcdd) also with an edge-level operation computed inside the closure of Manager::reorder before the levels are moved) is executed in lock-step on five managers that differ only in the apply cache: capacities 1, 2, 16, 4096 and a capacity-16 manager warmed up by 50 unrelated operations; after every step every register of every manager must denote the model's table and have the model's minimal node count (hence all managers agree), and every operation is re-issued once with the same operands and must return the same handle. Capacity 1 puts all entries in one bucket, so a key comparison that ignores the operator or an operand is hit by the second operation. states = distinct model states, transitions = checked steps, executions = histories (each on 5 managers).",
         assumptions: vec![
             "operator pairs on identical operands beyond the 5-operation alphabet per kind (quantifiers with the same cube, subset0/subset1/change, alternating substitutions) are enumerated in C04/C09/C10/C11's interleaved groups".into(),
         ],
@@ -39,6 +39,13 @@ pub fn shards(tier: &str) -> Vec<String> {
         v.extend(hist::shards_for(&["mtbddc"], &["n64c0t1k6"], 1));
         v.extend(hist::shards_for(&["mtbddk"], &["n64c0t1k4"], 1));
         v.extend(hist::shards_for(&["zbdds"], &["n64c0t1"], 1));
+    }
+    // reorderings with an operation computed inside the closure of Manager::reorder (nothing memoised
+    // there may survive the level swaps that follow)
+    if tier == "thorough" {
+        v.extend(hist::shards_for(&["bdd", "bcdd", "zbdd"], &["n64c0t1r"], 2));
+    } else {
+        v.extend(hist::shards_for(&["bdd", "zbdd"], &["n64c0t1r"], 1));
     }
     // memoisation histories of length two over restrict / quantification requests: the answer to the
     // second request after the first one must be the handle obtained on an emptied cache
